@@ -101,3 +101,74 @@ Definition same_origin (loc : bs) : bool :=
 (* correspondence: (url.Parse failed?, submitted form value, Location observed) *)
 Definition c17_bad (c : bool * bs * bs) : bool :=
   let '(pf, i, o) := c in negb (bs_eqb (location pf i) o).
+
+(* ------------------------------------------------------------------------------------------
+   The login prompt of a protected page and the federated round trip (auth_oauth2.go,
+   writeFailureResponse).  An unauthenticated text/html request for a page gets the login page
+   (401); its hidden login_destination input carries [page_destination]: r.URL.String() for the
+   three "come back here" paths (/idp/oauth2/authorize, /showAuthToken, /sendAuthDocument), the
+   filtered form field for a POST that has one, the profile page otherwise.  [pr_url] is
+   r.URL.String() — net/url, an input; an absolute-form request line makes it a full URL.
+   Whatever the browser posts back to /auth/oauth2/login ([posted]) goes through the filter into
+   pendingOauth2 ([pending_store] is the only store); the callback redirects to the parked
+   value, or to the profile page when it is empty.  The prompt itself never starts a federated
+   login, whatever oauth2.force_redirect says (it only hides the password form).
+   ------------------------------------------------------------------------------------------ *)
+Definition is_nil (s : bs) : bool := match s with [] => true | _ => false end.
+
+Record prompt_req := {
+  pr_post : bool;
+  pr_comeback : bool;
+  pr_url : bs;
+  pr_form : bs
+}.
+Definition page_destination (q : prompt_req) : bs :=
+  if pr_post q && negb (is_nil (pr_form q)) then get_login_destination (pr_form q)
+  else if pr_comeback q then pr_url q else profile.
+
+Definition prompt_starts_federated (oauth2_enabled force_redirect : bool) : bool := false.
+
+Definition pending_store (form_value : bs) : bs := get_login_destination form_value.
+Definition callback_target (pending : bs) : bs := if is_nil pending then profile else pending.
+Definition callback_location (parse_fails : bool) (pending : bs) : bs :=
+  hex_escape (redirect_location parse_fails (callback_target pending)).
+Definition federated_location (parse_fails : bool) (form_value : bs) : bs :=
+  callback_location parse_fails (pending_store form_value).
+
+Definition prompt_flow_pending (oauth2_enabled force_redirect : bool) (q : prompt_req) (posted : bs) : bs :=
+  if prompt_starts_federated oauth2_enabled force_redirect then page_destination q
+  else pending_store posted.
+Definition prompt_flow_location (oauth2_enabled force_redirect parse_fails : bool) (q : prompt_req) (posted : bs) : bs :=
+  callback_location parse_fails (prompt_flow_pending oauth2_enabled force_redirect q posted).
+
+(* http.Redirect leaves a target alone when url.Parse finds a scheme or a host in it
+   ([authority], an input computed by the real parser like [parse_fails]) *)
+Definition redirect_emit (parse_fails authority : bool) (d : bs) : bs :=
+  if parse_fails || authority then d else redirect_location false d.
+
+(* "/?user=" *)
+Definition logout_prefix : bs := [47; 63; 117; 115; 101; 114; 61].
+Definition logout_target (user : bs) : bs := if is_nil user then [SL] else logout_prefix ++ user.
+Definition logout_location (parse_fails : bool) (user : bs) : bs :=
+  hex_escape (redirect_location parse_fails (logout_target user)).
+
+(* correspondence of the prompt flow: (force_redirect, r.URL.Path is a come-back path, r.URL.String(),
+   what the prompt did (0 = login page, 1 = went to the provider by itself), value posted to
+   /auth/oauth2/login, url.Parse of it failed?, Location of the callback) *)
+Definition c17_flow_bad (c : bool * bool * bs * N * bs * bool * bs) : bool :=
+  let '(force, comeback, u, kind, posted, pf, loc) := c in
+  let q := {| pr_post := false; pr_comeback := comeback; pr_url := u; pr_form := [] |} in
+  negb (N.eqb kind (if prompt_starts_federated true force then 1 else 0)) ||
+  negb (bs_eqb (prompt_flow_location true force pf q posted) loc).
+
+(* correspondence of the logout redirect: (url.Parse failed?, user of the session, Location) *)
+Definition c17_logout_bad (c : bool * bs * bs) : bool :=
+  let '(pf, u, o) := c in negb (bs_eqb (logout_location pf u) o).
+
+(* correspondence of the login page's hidden input for a GET: (come-back path?, r.URL.String(),
+   ensureHTMLSafeLoginDestination of it, ensureHTMLSafeLoginDestination of the profile page — the
+   url.Parse/String round trip is an input —, value of the hidden input in the served page) *)
+Definition c17_page_bad (c : bool * bs * bs * bs * bs) : bool :=
+  let '(comeback, u, e_u, e_profile, hidden) := c in
+  let q := {| pr_post := false; pr_comeback := comeback; pr_url := u; pr_form := [] |} in
+  negb (bs_eqb hidden (if bs_eqb (page_destination q) u then e_u else e_profile)).
